@@ -191,7 +191,13 @@ def run_case(ctx, case):
     jobs2 = list(dup.jobs)
     if len(jobs2) > 1:
         jobs2 = jobs2[1:] if rng.random() < 0.5 else jobs2[::-1]
-    JobShopInstance(jobs2, name="rewrapped copy")
+    rew = JobShopInstance(jobs2, name="rewrapped copy")
+    indep = JobShopInstance([[Operation(list(op.machines), op.duration) for op in job] for job in jobs2])
+    L.expect(rew, indep, True, "re-wrapped deep copy vs independently built instance", None)
+    ro = [o for job in rew.jobs for o in job]; io = [o for job in indep.jobs for o in job]
+    L.expect(ro[-1], io[-1], True, "operation of a re-wrapped deep copy", None)
+    if hash(ro[-1]) != hash(io[-1]) or hash(ro[0]) != hash(io[0]):
+        ctx.violation("c15_equal_operations_hash_differently", {"what": "re-wrapped deep copy"})
     L.expect(A, B, True, "after a deep copy was re-wrapped", None)
     L.expect(opsA[-1], opsB[-1], True, "operation after a deep copy was re-wrapped", None)
     ctx.count("deepcopy_rewrap_checks")
